@@ -140,8 +140,10 @@ pc.abstract_stmts.append((
 pc.abstract_stmts.append((
     lambda s: isinstance(s, ast.Assign) and ast.unparse(s) == 'imports = []', 'see above'))
 pc.abstract_stmts.append((
-    lambda s: isinstance(s, ast.If) and ast.unparse(s.test) ==
-    'isinstance(bindings, (list, tuple))', 'joining a list of lines (string building)'))
+    lambda s: isinstance(s, ast.If) and not s.orelse and len(s.body) == 1 and
+    isinstance(s.body[0], ast.Assign) and ast.unparse(s.body[0].targets[0]) == 'bindings' and
+    'join(bindings)' in ast.unparse(s.body[0].value) and 'isinstance(bindings' in ast.unparse(s.test),
+    'joining a list of lines (string building)'))
 pc.assumptions.append('the statements a ConfigParser yields are BindingStatement / '
                       'BlockDeclaration / ImportStatement / IncludeStatement tuples of the '
                       'declared shapes; fetching the next statement may raise (syntax error)')
